@@ -129,6 +129,9 @@ Definition nf_init : nf_state :=
 Definition nf_set_lns (s : nf_state) (v : list (Z * Z)) : nf_state :=
   {| nf_npu := nf_npu s; nf_lns := v; nf_next := nf_next s; nf_nomore := nf_nomore s; nf_number := nf_number s;
      nf_last := nf_last s; nf_last_problem := nf_last_problem s; nf_sup := nf_sup s; nf_stash := nf_stash s |}.
+Definition nf_set_npu (s : nf_state) (v : list Z) : nf_state :=
+  {| nf_npu := v; nf_lns := nf_lns s; nf_next := nf_next s; nf_nomore := nf_nomore s; nf_number := nf_number s;
+     nf_last := nf_last s; nf_last_problem := nf_last_problem s; nf_sup := nf_sup s; nf_stash := nf_stash s |}.
 Definition nf_set_sup (s : nf_state) (v : nf_supp) : nf_state :=
   {| nf_npu := nf_npu s; nf_lns := nf_lns s; nf_next := nf_next s; nf_nomore := nf_nomore s; nf_number := nf_number s;
      nf_last := nf_last s; nf_last_problem := nf_last_problem s; nf_sup := v; nf_stash := nf_stash s |}.
@@ -234,7 +237,9 @@ Definition nf_begin (c : nf_cfg) (now : Z) (x : nf_ctx) (ty : nf_type) (force re
        nf_mk_exec ty force reminder false true [])
   | NfGEnd => (s0, nf_mk_exec ty force reminder false false [])
   | NfGType =>
-      (if nf_type_eqb ty NfRecovery && (nfc_interval c <=? 0) then nf_set_nomore s0 false else s0,
+      (* 329-353; the Clear() of notified_problem_users is the fix c30b63e *)
+      (let s1 := if nf_type_eqb ty NfRecovery && (nfc_interval c <=? 0) then nf_set_nomore s0 false else s0 in
+       if nf_type_eqb ty NfRecovery then nf_set_npu s1 [] else s1,
        nf_mk_exec ty force reminder false false [])
   | NfGState => (s0, nf_mk_exec ty force reminder false false [])
   | NfGo =>
